@@ -76,7 +76,8 @@ def fluent_text(k, numeral):
 
 
 NUM_GOALS = ["(> (g o1) 1)", "(<= (f) 2.5)", "(= (h o1 o1) 0)", "(>= (+ (g o1) (f)) (* 2 (g o2)))"]
-NUM_GOALS_NUMERAL_FIRST = ["(< 3 (g o1))", "(>= 2.5 (f))", "(<= 0 (h o1 o1))", "(> 1 (+ (g o1) (f)))"]
+NUM_GOALS_NUMERAL_FIRST = ["(< 3 (g o1))", "(>= 2.5 (f))", "(<= 0 (h o1 o1))", "(> 1 (+ (g o1) (f)))",
+                           "(<= (- 0 (g o1)) 5)", "(> (* 1 (f)) (- 0 (g o2)))"]
 
 
 def valid_problems(tier):
@@ -164,7 +165,7 @@ BASES = [
 
 def corruptions(tier):
     """yields dict(kind='corrupt', what, text) : every single-point corruption of the base problems."""
-    objs = dict(OBJ_T)
+    objs = dict(OBJ_T, u0="object")   # u0: an object of the root type, legal only where 'object' is required
     otext = " ".join(f"{n} - {t}" for n, t in objs.items())
     allobjs = dict(objs, c="t1")
 
@@ -189,6 +190,11 @@ def corruptions(tier):
     for init, goal, what in (("(p o2)", "", "atoms:p:object-of-earlier-problem"), ("(q o1 o2)", "", "atoms:q:object-of-earlier-problem"),
                              ("(= (g o2) 1)", "", "fluent:g:object-of-earlier-problem"), ("(p o1)", "(s o2)", "goals:s:object-of-earlier-problem")):
         yield {"kind": "corrupt", "what": what, "base": -1, "text": render(small, [init], [goal] if goal else [])}
+    # a problem that names another domain, also when the other name is a piece, a prefix, a suffix or an extension of
+    # the real one (the domain here is called w-num_2)
+    for other in ("w", "num", "w-num", "w-num_", "num_2", "-", "w-num_22", "xw-num_2", "w_num-2"):
+        yield {"kind": "corrupt", "what": "wrong-domain:" + other, "base": 0, "dom": "long-name",
+               "text": text(BASES[1], domain=other)}
     for bi, b in enumerate(BASES):
         yield {"kind": "corrupt", "what": "wrong-domain", "text": text(b, domain="other"), "base": bi}
         yield {"kind": "corrupt", "what": "undeclared-object-type", "base": bi,
